@@ -4,7 +4,7 @@ namespace TIV.C10
 open TIV.Prog
 
 /-- in strict mode only `_render_` calls fail -/
-def injS (s : Bool) (t : Target) (e : Exc) : Prop := inj t e ∧ (s = true → t = .render)
+def injS (s : Bool) (t : Target) (e : Exc) : Prop := inj t e ∧ (s = true → t = .render ∨ t = .write)
 
 /-- what no operation on existing iterators changes -/
 structure Fr (w0 w : World) : Prop where
@@ -88,6 +88,8 @@ variable (w : World) (i j d : Nat) (f : Ctl → Ctl)
 @[simp] theorem write_id : apply .write w = w := rfl
 @[simp] theorem validate_id : apply .validate w = w := rfl
 @[simp] theorem resolve_id : apply .resolvePad w = w := rfl
+@[simp] theorem writeNl_id : apply .writeNl w = w := rfl
+@[simp] theorem convert_id : apply .convertArgs w = w := rfl
 end fields
 
 /-- closes goals `GF … (closeW/ctl/render … w)` from a hypothesis `GF … w` -/
@@ -233,11 +235,12 @@ theorem iterNewP_spec {s w} (loops : Int) (c : CacheArg) (b : Bool) (h : G s NoX
     | exact h
     | exact G_newIter _ _ _ _ _ h1 hx.1 hx.2.1 h2 (by simp) (fun j => by simp [Only, NoX])
 
-theorem fromDataP_spec {s w} (d : Nat) (fin : Bool) (loops : Int) (c : CacheArg) (b : Bool) (h : G s NoX w)
+theorem fromDataP_spec {s w} (d : Nat) (fin : Bool) (loops : Int) (c : CacheArg) (a : ArgsKind) (b : Bool) (h : G s NoX w)
     (hd : d < w.nObjs) (hh : (w.objs d).held = true) (hna : ¬ Att w d) :
-    wp sem (injS s) (fromDataP d fin loops c) b (fun _ w' => G s NoX w') (fun _ _ w' => G s NoX w') w := by
+    wp sem (injS s) (fromDataP d fin loops c a) b (fun _ w' => G s NoX w') (fun _ _ w' => G s NoX w') w := by
   unfold fromDataP initChecks
   wpgo
+  all_goals try simp only [convert_id]
   all_goals first
     | exact h
     | (refine G_newIter _ _ _ _ _ h hd (by simp_all) hna ?_ (fun j => by simp [NoX])
@@ -442,11 +445,11 @@ theorem drawP_spec {s w} (animate cs : Bool) (loops : Int) (cache : CacheArg) (b
   have hr := G_render _ h1 hx
   have hra : ¬ Att (apply (.render w.nObjs) (apply (.newData .lib (decide (w.fc ≠ 1) && animate) false) w)) w.nObjs := by
     rwa [Att_render]
-  have hsf : ∀ t e, injS s t e → t ≠ .render → s = false := by
+  have hsf : ∀ t e, injS s t e → t ≠ .render ∧ t ≠ .write → s = false := by
     intro t e hi ht; cases s <;> simp_all [injS]
   unfold drawP initRender
   wpgo
-  all_goals simp only [write_id, validate_id, resolve_id]
+  all_goals simp only [write_id, validate_id, resolve_id, writeNl_id]
   all_goals first
     | exact fin_end _ hr hra
     | exact fin_end _ h1 h2
@@ -457,6 +460,60 @@ theorem drawP_spec {s w} (animate cs : Bool) (loops : Int) (cache : CacheArg) (b
          exact ⟨fun _ e he => forget_end _ h'.g (hsf _ _ he (by simp)) h'.na, fin_end _ h'.g h'.na⟩
        · intro b' _ w' h'
          exact ⟨fun _ e he => forget_end _ h'.g (hsf _ _ he (by simp)) h'.na, fin_end _ h'.g h'.na⟩)
+end
+
+/-! ### promptness of `draw` -/
+
+/-- the faults under which `draw` promises to have finalized its data itself: any `_render_` call, any
+    write of the drawing proper. Not: padding resolution / size validation (they happen inside
+    `_init_render_(finalize=False)`, before `draw`'s `try` — the data is then left to `__del__`), nor
+    the `write("\n")` of `draw`'s own clean-up, which precedes `finalize()` in the `finally`. -/
+def injDraw (t : Target) (e : Exc) : Prop := inj t e ∧ (t = .render ∨ t = .write)
+
+/-- object `d` has been finalized, once, by library code, not by `__del__`, and was never used after -/
+structure Prompt (d : Nat) (w : World) : Prop where
+  finalized : (w.objs d).finalized = true
+  once : (w.objs d).finCalls = 1
+  byLib : (w.objs d).libFin = 1
+  notDel : (w.objs d).viaDel = 0
+  notUsedAfter : (w.objs d).usedAfter = 0
+
+theorem prompt_of_fin {s d w} (h : G s (Only d) w) : Prompt d (finalizeW d .lib w) := by
+  obtain ⟨h1, h2, h3, h4⟩ := h.xLive d rfl
+  have ha := h.objA d h1
+  have hv := h.objV d h1
+  have hb := h.objB d h1
+  rw [h2] at ha
+  simp only [Bool.toNat_false] at ha
+  constructor <;> simp [finalizeW, h2, apply, ha, hb] <;> omega
+
+section
+attribute [local irreducible] animateP
+theorem drawP_prompt {w} (animate cs : Bool) (loops : Int) (cache : CacheArg) (bound : Nat) (b : Bool)
+    (h : G false NoX w) :
+    wp sem injDraw (drawP animate cs loops cache bound) b (fun _ w' => Prompt w.nObjs w')
+      (fun _ _ w' => Prompt w.nObjs w') w := by
+  obtain ⟨h1, h2⟩ := fresh (s := false) (decide (w.fc ≠ 1) && animate) h
+  have hx := (h1.xLive _ rfl).2.1
+  have hlt : ∀ j, j < (apply (.newData .lib (decide (w.fc ≠ 1) && animate) false) w).nIters →
+      ((apply (.newData .lib (decide (w.fc ≠ 1) && animate) false) w).iters j).data < w.nObjs := fun j hj => h.itLt j hj
+  have hr := G_render _ h1 hx
+  have hno : ∀ t e, injDraw t e → t ≠ .render ∧ t ≠ .write → False := by
+    intro t e hi ht; simp_all [injDraw]
+  unfold drawP initRender
+  wpgo
+  all_goals simp only [write_id, validate_id, resolve_id, writeNl_id]
+  all_goals first
+    | exact prompt_of_fin hr
+    | exact prompt_of_fin h1
+    | (refine wp_mono sem injDraw _ _ _ _ _ _ _ ?_ ?_
+        (wp_inj_mono sem (injS false) injDraw (fun t e he => ⟨he.1, by simp⟩) _ _ _ _ _
+          (animateP_spec loops cache bound _ ⟨h1, h2⟩ hlt))
+       · intro b' w' h'
+         exact ⟨fun _ e he => (hno _ _ he (by simp)).elim, prompt_of_fin h'.g⟩
+       · intro b' _ w' h'
+         exact ⟨fun _ e he => (hno _ _ he (by simp)).elim, prompt_of_fin h'.g⟩)
+    | (exfalso; clear h h1 h2 hx hlt hr hno; simp_all [injDraw]; done)
 end
 
 /-! ### one history step -/
@@ -497,10 +554,10 @@ theorem step_inv (s : Bool) (w : World) (op : Op) (f : Flt) (hadm : Admissible (
     | draw a cs l c b => exact post_G (wp_sound sem (injS s) _ f _ _ w (by simpa [injOp, isDirect] using hadm) (drawP_spec a cs l c b _ h.1))
     | iterNew l c => exact post_G (wp_sound sem (injS s) _ f _ _ w (by simpa [injOp, isDirect] using hadm) (iterNewP_spec l c _ h.1))
     | mkData it => exact post_G (wp_sound sem (injS s) _ f _ _ w (by simpa [injOp, isDirect] using hadm) (mkData_spec it _ h.1))
-    | fromData d fin l c =>
+    | fromData d fin l c a =>
       simp only [valid, Bool.and_eq_true, decide_eq_true_eq, Bool.not_eq_true'] at hv
       have hna : ¬ Att w d := by rw [← attached_iff]; simp [hv.2]
-      exact post_G (wp_sound sem (injS s) _ f _ _ w (by simpa [injOp, isDirect] using hadm) (fromDataP_spec d fin l c _ h.1 hv.1.1 hv.1.2 hna))
+      exact post_G (wp_sound sem (injS s) _ f _ _ w (by simpa [injOp, isDirect] using hadm) (fromDataP_spec d fin l c a _ h.1 hv.1.1 hv.1.2 hna))
     | next i =>
       simp only [valid, Bool.and_eq_true, decide_eq_true_eq] at hv
       exact post_GF (wp_sound sem (injS s) _ f _ _ w (by simpa [injOp, isDirect] using hadm) (nextP_spec i _ h0 hv.1))
